@@ -24,6 +24,7 @@ type Profile struct {
 	UserFuncs      bool // hand-written functions with derive-like names
 	Concurrency    bool // do / pipeline / dup / channel forms
 	ZeroResults    bool // functions without results for curry / flip / uncurry / mem (C09 profile)
+	Force          bool // Ext / Q are not only allowed but present
 	FuncParamForms bool // unnamed / blank / generator-like parameter names in function-typed arguments
 }
 
@@ -57,7 +58,7 @@ func Generate(t *tape.Tape, p Profile) *World {
 		p.MaxDecls = 1
 		g.p = p
 	}
-	w.HasExt = p.Ext && t.Chance(1, 3)
+	w.HasExt = p.Ext && (t.Chance(1, 3) || p.Force)
 	w.NFiles = 1 + t.Intn(3)
 	nd := 1 + t.Intn(p.MaxDecls)
 	for i := 0; i < nd; i++ {
@@ -72,6 +73,9 @@ func Generate(t *tape.Tape, p Profile) *World {
 	if p.NamedComposite && t.Chance(1, 3) {
 		g.assignableCluster()
 	}
+	if p.Forms {
+		g.pairCalls()
+	}
 	if len(w.Calls) == 0 {
 		// always at least one call: the simplest one
 		c := g.simple("equal", Ptr(Named("", w.Decls[0].Name)))
@@ -79,7 +83,7 @@ func Generate(t *tape.Tape, p Profile) *World {
 			w.Calls = append(w.Calls, c)
 		}
 	}
-	if p.Q && t.Chance(1, 4) {
+	if p.Q && (t.Chance(1, 4) || p.Force) {
 		w.HasQ = true
 		nq := 1 + t.Intn(3)
 		for i := 0; i < nq; i++ {
@@ -89,6 +93,22 @@ func Generate(t *tape.Tape, p Profile) *World {
 		}
 		if len(w.QCalls) == 0 {
 			w.HasQ = false
+		}
+	}
+	if w.HasQ && w.HasExt && t.Bool() {
+		// both packages derive over the same struct of a third package
+		T := Ptr(Named("ext", []string{"X", "X", "T", "V"}[t.Intn(4)]))
+		plugin := []string{"equal", "compare", "hash", "clone", "deepcopy"}[t.Intn(5)]
+		for _, pkg := range []string{"", "q"} {
+			if c := g.simple(plugin, T); c != nil {
+				if f := g.finish(c, pkg); f != nil {
+					if pkg == "" {
+						w.Calls = append(w.Calls, f)
+					} else {
+						w.QCalls = append(w.QCalls, f)
+					}
+				}
+			}
 		}
 	}
 	if p.UserFuncs && t.Chance(1, 5) {
@@ -225,7 +245,7 @@ func (g *gen) structRef(self *Decl, allowSelf bool) *Ty {
 		}
 	}
 	if g.w.HasExt {
-		cands = append(cands, Named("ext", "T"), Named("ext", "U"), Named("ext", "V"), Named("oext", "T"), Named("oext", "W"))
+		cands = append(cands, Named("ext", "T"), Named("ext", "U"), Named("ext", "V"), Named("ext", "X"), Named("oext", "T"), Named("oext", "W"))
 	}
 	if len(cands) == 0 {
 		return nil
@@ -761,6 +781,32 @@ func (g *gen) assignableCluster() {
 		}
 		if f := g.finish(c, ""); f != nil {
 			w.Calls = append(w.Calls, f)
+		}
+	}
+}
+
+// pairable: a flat single-result call in a plain function body.
+func pairable(c *Call) bool {
+	if c == nil || c.NRes != 1 || c.Curried != nil || c.Pair != nil || c.Test {
+		return false
+	}
+	for _, a := range c.Args {
+		if a.Nested != nil || a.Lit != "" {
+			return false
+		}
+	}
+	return true
+}
+
+// pairCalls moves some calls onto the source line of another one.
+func (g *gen) pairCalls() {
+	w, t := g.w, g.t
+	for i := 0; i+1 < len(w.Calls); i++ {
+		a, b := w.Calls[i], w.Calls[i+1]
+		if pairable(a) && pairable(b) && t.Chance(1, 5) {
+			a.Form = 0
+			a.Pair = b
+			w.Calls = append(w.Calls[:i+1:i+1], w.Calls[i+2:]...)
 		}
 	}
 }
